@@ -287,6 +287,13 @@ func (v *Value) Len() int {
 func (v *Value) Slice(i, j int) *Value {
 	switch v.getResolvedValue().Kind() {
 	case reflect.Array, reflect.Slice:
+		if rv := v.getResolvedValue(); rv.Kind() == reflect.Array && !rv.CanAddr() {
+			// reflect cannot slice an array that is not addressable (e. g. an
+			// array passed by value in the context): slice a copy instead.
+			cp := reflect.New(rv.Type()).Elem()
+			cp.Set(rv)
+			return AsValue(cp.Slice(i, j).Interface())
+		}
 		return AsValue(v.getResolvedValue().Slice(i, j).Interface())
 	case reflect.String:
 		runes := []rune(v.getResolvedValue().String())
